@@ -400,8 +400,10 @@ def run(chk):
         "attempts accepted after Close returned, on anything received on a connection whose OPEN the peer answered only after "
         "Close returned (slow handshake: it was sent in reaction to that answer), and on closed=TRUE read under s.mu at the "
         "hook's write/install points; a Close (or Set) that is still blocked on s.mu while the handshake is pending is not judged",
-        "an abort of a connection the peer did not drop (e.g. by a stale reader) is reported as DRIFT, not as a violation: the "
-        "statement does not forbid extra reconnections",
+        "NoSpuriousReset: an end of stream the peer sees is explained only by its own drop (no eof line is logged then), a wrong "
+        "ASN it presented, or a Close call that has begun; the peer's OPEN varies per connection (capability 65, MP "
+        "capabilities, hold time 0/3/30 s) and in 30 % of the connections OPEN, KEEPALIVE, a 4096-octet UPDATE and a KEEPALIVE "
+        "leave in one write; AS_PATH must be the intended one in the width announced on that connection",
     ]
 
 
